@@ -229,6 +229,27 @@ class C09(Prop):
                 top = lang.N('once', top)
             defs, consts = [('sa', cterm)], []
             f = lang.inline(top, defs)
+        if rng.random() < 0.02:
+            # many named assertions (9..33), each built on the one before: `s1 = p1; s2 = (s1 and p2); ...; out = sK or s1`
+            N, V, C = lang.N, lang.V, lang.C
+            K = rng.choice([9, 17, 33])
+            vs = ['x', 'y']
+            pr = lambda: N(rng.choice(['geq', 'leq']), V(rng.choice(vs)), C(rng.choice([0.0, 1.0, -1.0, 2.0])))
+            past = ['once', 'historically'] if not kind.startswith('ct') else ['once', 'historically']
+            defs = [('s1', pr())]
+            for i in range(2, K + 1):
+                prev_ = V('s%d' % (i - 1))
+                r = rng.random()
+                if r < 0.5:
+                    g = N(rng.choice(['and', 'or', 'implies']), *rng.sample([prev_, pr()], 2))
+                elif r < 0.8:
+                    g = N(rng.choice(past), prev_, ivl=(0, rng.choice([1, 2])))
+                else:
+                    g = N('not', prev_)
+                defs.append(('s%d' % i, g))
+            top = N(rng.choice(['or', 'and']), V('s%d' % K), V('s1'))
+            consts = []
+            f = lang.inline(top, defs)
         wide_n = None
         if kind in ('dt_off', 'dt_on') and rng.random() < 0.06:
             # a wide window (13..200 samples) inside a named sub-specification that later assertions refer to once or
@@ -318,6 +339,8 @@ class C09(Prop):
         v.info['kind:' + kind] = 1
         if case.get('wide_named'):
             v.info['class:wide-window-in-a-named-sub-specification'] = 1
+        if len(defs) >= 9:
+            v.info['class:many-named-assertions'] = 1
         v.info['multi-ref'] = 1 if any(c >= 2 for c in refs.values()) else 0
         v.info['consts'] = 1 if case['consts'] else 0
         iasd = {}
